@@ -261,6 +261,10 @@ func docSchema(r *rng) schemaSpec {
 	small := randTypeSpec(r, "small", 5, []string{"other", "alltypes"})
 	other := typeSpec{name: "other", fields: []fieldSpec{{name: "title", code: 1}, {rel: true, name: "owner", toOne: true, target: "small"},
 		{rel: true, name: "editor", toOne: true, target: "alltypes"}}}
+	if r.chance(1, 3) {
+		// names shared with the other types
+		other.fields = append(other.fields, fieldSpec{name: "string", code: 1}, fieldSpec{rel: true, name: "many", target: "small"}, fieldSpec{name: "a", code: 2, nullable: true})
+	}
 	return schemaSpec{types: []typeSpec{all, other, small}, wrapped: map[string]bool{"alltypes": r.bool(), "small": r.bool(), "other": r.bool()}}
 }
 
@@ -328,7 +332,7 @@ func randRelData(r *rng, sc schemaSpec) map[string][]string {
 
 func randDoc(r *rng) docSpec {
 	sc := docSchema(r)
-	d := docSpec{sc: sc, prepath: pick(r, []string{"", "/", "https://example.org", "https://example.org/api/", "https://example.org/relationships/v1"})}
+	d := docSpec{sc: sc, prepath: pick(r, []string{"", "/", "https://example.org", "https://example.org/api/", "https://example.org/relationships/v1", "https://example.org/api//", "//"})}
 	d.dataKind = pick(r, []string{"nil", "resource", "resource", "soft-collection", "wrapper-collection", "resources", "resources", "identifier", "identifiers", "nil-identifiers"})
 	tn := pick(r, []string{"alltypes", "small", "other"})
 	d.urlFrags = []string{tn}
